@@ -43,8 +43,21 @@ def rewrite_use_groups(src):
         return out
     return re.sub(r'use\s+std::\{((?:[^{};]|\{[^{}]*\})*)\};', repl, src)
 
+SYNC_TYPES = re.compile(r'\b(RwLock|Mutex|Condvar|Barrier|Once|Atomic[A-Z]\w*|mpsc)\b')
+STATIC_ITEM = re.compile(r'^(?P<indent>[ \t]*)(?P<vis>pub(?:\([^)]*\))?\s+)?static\s+(?P<name>[A-Z_][A-Z0-9_]*)\s*:\s*(?P<ty>[^=;]+?)\s*=\s*(?P<init>[^;]*);[ \t]*$', re.M)
+
+def rewrite_statics(src):
+    # shuttle's primitives have no const constructors: `static X: Mutex<T> = Mutex::new(..);`
+    # becomes a lazily initialised static with the same name and type (uses go through Deref)
+    def repl(m):
+        if not SYNC_TYPES.search(m.group('ty')):
+            return m.group(0)
+        return '%sshuttle::lazy_static! { %sstatic ref %s: %s = %s; }' % (m.group('indent'), m.group('vis') or '', m.group('name'), m.group('ty'), m.group('init'))
+    return STATIC_ITEM.sub(repl, src)
+
 def rewrite(src):
     src = rewrite_use_groups(src)
+    src = rewrite_statics(src)
     src = re.sub(r'\b(?:std|core)::sync\b', 'shuttle::sync', src)
     src = re.sub(r'\bstd::thread\b(?!_)', 'shuttle::thread', src)
     src = re.sub(r'\bstd::thread_local!', 'shuttle::thread_local!', src)
